@@ -337,18 +337,6 @@ def serialize(ast, var_index):
         if op == "If":
             return ["ite"] + go(n.args[0]) + go(n.args[1]) + go(n.args[2])
         if op in _CMP:
-            if op in ("__eq__", "__ne__"):
-                # a fresh name (the result of any operation) is shared by the occurrences of one sub-AST (conversions are cached per
-                # AST) and survives the copying extensions; the model tracks the names of VARIABLES only and is a sound
-                # over-approximation here ({F,T} where the real answer is exact): outside the exact correspondence
-                def core(x):
-                    while getattr(x, "op", None) in ("ZeroExt", "SignExt") or (
-                            getattr(x, "op", None) == "Extract" and x.args[1] == 0 and x.args[0] + 1 == x.args[2].size()):
-                        x = x.args[-1]
-                    return x
-                ca, cb = core(n.args[0]), core(n.args[1])
-                if hasattr(ca, "op") and hasattr(cb, "op") and ca.op not in ("BVS", "BVV") and ca.hash() == cb.hash():
-                    raise Unmodelled("eq/ne of two derivations of one derived node (shared fresh name)")
             return ["cmp", _CMP[op]] + go(n.args[0]) + go(n.args[1])
         if op == "Not":
             return ["bnot"] + go(n.args[0])
